@@ -56,7 +56,12 @@ def burst_scenario(rng):
 
 
 def random_scenario(rng):
-    lines = ["LOGGER %s %d %s" % (rng.choice(["bg", "bg", "fg", "na", "std", "stdf"]), rng.randint(0, 6), rng.choice(["iso", "iso", "rfc"]))]
+    df = rng.choice(["iso", "iso", "rfc"])
+    lines = ["LOGGER %s %d %s%s" % (rng.choice(["bg", "bg", "fg", "fg", "na", "std", "stdf"]), rng.randint(0, 6), df,
+                                    rng.choice(["", "", " wf1", " wf2", " wf3"]))]
+    if rng.random() < 0.35:
+        # the same thread (main) formats a line with the other date format just before it uses the logger
+        lines.append("FMT 400 %d %d 0 13 %s" % (rng.randint(1, 6), rng.choice([0, 7]), "rfc" if df == "iso" else "iso"))
     if rng.random() < 0.6:
         lines.append("PRE " + " ".join(rand_ops(rng, rng.randint(1, 4), True)))
     for k in range(1, rng.randint(0, 3) + 1):
@@ -74,7 +79,7 @@ def formatter_scenarios(rng, thorough):
     totals = list(range(2, 140, 3 if not thorough else 1)) + [150, 200, 256, 400, 1000]
     for t in totals:
         for plen in (0, 7, 100) if not thorough else (0, 1, 7, 50, 100, 500):
-            lines.append("FMT %d %d %d %d" % (t, rng.randint(1, 6), plen, rng.choice([0, 1, 3])))
+            lines.append("FMT %d %d %d %d 13 %s" % (t, rng.randint(1, 6), plen, rng.choice([0, 1, 3]), rng.choice(["iso", "rfc"])))
         if len(lines) > 60:
             out.append(lines)
             lines = []
@@ -98,8 +103,8 @@ def formatter_scenarios(rng, thorough):
     lines = []
     for sl in SUBJ_LEN + ([0, 2, 60, 87, 95, 100, 200] if thorough else [0, 100]):
         for lv in range(1, 7) if thorough else (rng.randint(1, 6), rng.choice([3, 4])):
-            lines.append("FMT %d %d %d %d %d" % (sl + 400, lv, rng.choice([0, 7, 100]), rng.choice([0, 1, 3]), sl))
-            lines.append("FMT %d %d %d %d %d" % (sl + rng.randint(20, 130), lv, rng.choice([0, 7, 100]), 0, sl))
+            lines.append("FMT %d %d %d %d %d %s" % (sl + 400, lv, rng.choice([0, 7, 100]), rng.choice([0, 1, 3]), sl, rng.choice(["iso", "rfc"])))
+            lines.append("FMT %d %d %d %d %d %s" % (sl + rng.randint(20, 130), lv, rng.choice([0, 7, 100]), 0, sl, rng.choice(["iso", "rfc"])))
     for sl in SUBJ_LEN:
         lines.append("NOALLOC 6 %d %d %d %d" % (rng.randint(1, 6), rng.choice([0, 40, 8000]), rng.randint(0, 3), sl))
     out.append(lines)
